@@ -4,15 +4,15 @@ import numpy as np
 from vf import instrument as I
 from vf.core import digest
 from vf.models import convert as CV
-from vf.spec import INDEX_KINDS, S, build, make_frame, short
+from vf.spec import INDEX_KINDS, TIED_INDEX_KINDS, S, build, make_frame, short
 from vf.zoo import PENALTY_FNS
 
-SHARDS = {"quick": 8, "thorough": 16}
+SHARDS = {"quick": 16, "thorough": 16}
 WATCHDOG = {"quick": 1800, "thorough": 10800}
-CASES = {"quick": 60, "thorough": 900}
+CASES = {"quick": 100, "thorough": 900}
 FLOORS = {
-    "quick": {"distinct_nontrivial": 80, "anomalies_checked": 500, "point_anomalies_checked": 60,
-              "anomalies_with_proper_subset": 150, "transform_cells_checked": 20000},
+    "quick": {"distinct_nontrivial": 550, "anomalies_checked": 12000, "point_anomalies_checked": 9700,
+              "anomalies_with_proper_subset": 5400, "transform_cells_checked": 100000},
     "thorough": {"distinct_nontrivial": 1500, "anomalies_checked": 10000},
 }
 ANCHORS = [
@@ -76,7 +76,7 @@ def make_recipe(rng, tier):
         collective_penalty_scale=float(rng.choice([0.1, 0.3, 0.6, 1.0, 2.0])), point_penalty=pen(),
         point_penalty_scale=float(rng.choice([0.1, 0.3, 0.6, 1.0, 2.0])), min_segment_length=m,
         max_segment_length=int(rng.integers(m, 40)), ignore_point_anomalies=False)
-    return {"det": spec, "X": X, "index": INDEX_KINDS[int(rng.integers(5))],
+    return {"det": spec, "X": X, "index": (INDEX_KINDS + TIED_INDEX_KINDS)[int(rng.integers(7))],
             "columns": ["default", "strings", "duplicate", "printsame"][int(rng.integers(4))]}
 
 
